@@ -15,7 +15,7 @@ import (
 
 func init() {
 	register(&Rule{Name: "shuffle.perm", Floor: 6,
-		Doc: "the whole-list shuffle only ever writes its input through two-element parallel swaps (so the output is a permutation of the input for every seed, size and round count); the forward entry points pass dir=true and the inverse ones dir=false to the same inner routine; the round counter runs 0..rounds-1 forwards and rounds-1..0 backwards; the two mirrored pair loops of innerShuffleList have identical bodies; NewShufflingEpoch copies the active indices element-wise and un-shuffles them with SHUFFLE_ROUND_COUNT",
+		Doc: "the whole-list shuffle only ever writes its input through two-element parallel swaps (so the output is a permutation of the input for every seed, size and round count); the forward entry points pass dir=true and the inverse ones dir=false to the same inner routine; the round counter runs 0..rounds-1 forwards and rounds-1..0 backwards (`for { … break }` with a stepped counter, or a counting loop over step with round = step / rounds-1-step); the two mirrored pair loops of innerShuffleList have identical bodies; NewShufflingEpoch copies the active indices element-wise and un-shuffles them with SHUFFLE_ROUND_COUNT",
 		Run: ruleShufflePerm})
 	register(&Rule{Name: "committee.partition", Floor: 6,
 		Doc: "committees are consecutive reslices Shuffling[start(k):end(k)] of one permutation with start(k) = n*k/count, end(k) = start(k+1), k = slot*perSlot + index over the full slot x index product and count = perSlot*SLOTS_PER_EPOCH (so they partition the active set); CommitteeCount clamps active/SLOTS_PER_EPOCH/TARGET_COMMITTEE_SIZE to [1, MAX_COMMITTEES_PER_SLOT]; proposer and sync-committee sampling use the same acceptance test against MAX_EFFECTIVE_BALANCE and the same permuted-index call",
@@ -277,6 +277,11 @@ func ruleShufflePerm(c *Ctx) {
 				loop = l
 			}
 		}
+		if dirObj != nil && roundsObj != nil && loop == nil {
+			if done := countedRounds(c, info2, f2, key, dirObj, roundsObj); done {
+				continue
+			}
+		}
 		if dirObj == nil || roundsObj == nil || loop == nil {
 			c.unm(key, f2.Pos(), "direction handling written in an unrecognised form (bool direction, uint8 rounds, `for { … }`)")
 			continue
@@ -518,6 +523,121 @@ func ruleShufflePerm(c *Ctx) {
 	} else {
 		c.bad("NewShufflingEpoch.copy", f3.Pos(), "Shuffling is not initialised as a position-by-position copy of ActiveIndices")
 	}
+}
+
+// countedRounds: the round schedule written as a counting loop, `for step := 0; step < rounds; step++`, with the round
+// number chosen per step by the direction: step forwards, rounds-1-step backwards. No rounds means no iteration, and
+// rounds-1-step is only evaluated with step < rounds, so nothing wraps. Reports whether the form was recognised.
+func countedRounds(c *Ctx, info *types.Info, fd *ast.FuncDecl, key string, dirObj, roundsObj types.Object) bool {
+	parents := parentMap(fd.Body)
+	var loop *ast.ForStmt
+	var stepObj types.Object
+	ast.Inspect(fd.Body, func(n ast.Node) bool {
+		if _, ok := n.(*ast.FuncLit); ok {
+			return false
+		}
+		fs, ok := n.(*ast.ForStmt)
+		if !ok || fs.Cond == nil || loop != nil {
+			return true
+		}
+		be, ok := ast.Unparen(fs.Cond).(*ast.BinaryExpr)
+		if !ok || !countingLoop(info, parents, be) {
+			return true
+		}
+		iv, bound := be.X, be.Y
+		if be.Op == token.GTR {
+			iv, bound = be.Y, be.X
+		}
+		bid, ok1 := ast.Unparen(bound).(*ast.Ident)
+		iid, ok2 := ast.Unparen(iv).(*ast.Ident)
+		if ok1 && ok2 && info.ObjectOf(bid) == roundsObj {
+			loop, stepObj = fs, info.ObjectOf(iid)
+		}
+		return true
+	})
+	if loop == nil || stepObj == nil {
+		return false
+	}
+	stepA, roundsA := polyAtom(stepObj.Name()), polyAtom(roundsObj.Name())
+	wantBwd := polyAdd(polyAdd(roundsA, polyConst(1), -1), stepA, -1)
+	// value assigned to obj by the last plain assignment of a statement list
+	valueIn := func(list []ast.Stmt, obj types.Object) (Poly, bool) {
+		var p Poly
+		found := false
+		for _, st := range list {
+			as, ok := st.(*ast.AssignStmt)
+			if !ok || len(as.Lhs) != 1 || len(as.Rhs) != 1 || (as.Tok != token.ASSIGN && as.Tok != token.DEFINE) {
+				continue
+			}
+			if id, ok := as.Lhs[0].(*ast.Ident); ok && info.ObjectOf(id) == obj {
+				if q, ok := exprPoly(info, as.Rhs[0], nil, nil, 0); ok {
+					p, found = q, true
+				} else {
+					found = false
+				}
+			}
+		}
+		return p, found
+	}
+	for i, st := range loop.Body.List {
+		is, ok := st.(*ast.IfStmt)
+		if !ok || is.Init != nil {
+			continue
+		}
+		cnd := ast.Unparen(is.Cond)
+		neg := false
+		if u, isNot := cnd.(*ast.UnaryExpr); isNot && u.Op == token.NOT {
+			neg = true
+			cnd = ast.Unparen(u.X)
+		}
+		id, isId := cnd.(*ast.Ident)
+		if !isId || info.ObjectOf(id) != dirObj {
+			continue
+		}
+		var els []ast.Stmt
+		if eb, ok := is.Else.(*ast.BlockStmt); ok {
+			els = eb.List
+		} else if is.Else != nil {
+			continue
+		}
+		fwd, bwd := is.Body.List, els
+		if neg {
+			fwd, bwd = els, is.Body.List
+		}
+		// the variable the direction decides
+		var obj types.Object
+		for _, side := range [][]ast.Stmt{fwd, bwd} {
+			for _, s1 := range side {
+				if as, ok := s1.(*ast.AssignStmt); ok && len(as.Lhs) == 1 {
+					if lid, ok := as.Lhs[0].(*ast.Ident); ok && obj == nil {
+						obj = info.ObjectOf(lid)
+					}
+				}
+			}
+		}
+		if obj == nil {
+			continue
+		}
+		before, hasBefore := valueIn(loop.Body.List[:i], obj)
+		f, okF := valueIn(fwd, obj)
+		b, okB := valueIn(bwd, obj)
+		if !okF && hasBefore {
+			f, okF = before, true
+		}
+		if !okB && hasBefore {
+			b, okB = before, true
+		}
+		if !okF || !okB {
+			continue
+		}
+		if polyEq(f, stepA) && polyEq(b, wantBwd) {
+			c.ok(key, is.Pos(), "counting loop over step = 0..rounds-1: round = step forwards, rounds-1-step backwards; no rounds, no iteration")
+		} else {
+			c.bad(key, is.Pos(), "round schedule deviates: forward must run the rounds 0..rounds-1 (round = %s here) and backward rounds-1..0 (round = %s here)", f.String(), b.String())
+		}
+		return true
+	}
+	return false
 }
 
 // roundsZeroReturns: some `if` whose condition holds whenever rounds == 0 (the bare test or an ||-disjunct) returns at once.
@@ -1106,6 +1226,12 @@ var polyAbsPerType map[string]int
 func absName(info *types.Info, e ast.Expr) string {
 	switch x := ast.Unparen(e).(type) {
 	case *ast.Ident:
+		// a parameter standing for the argument of the call being read
+		if a, ok := polyArg(info.Uses[x]); ok {
+			if aid, isId := ast.Unparen(a).(*ast.Ident); !isId || info.Uses[aid] != info.Uses[x] {
+				return absName(info, a)
+			}
+		}
 		if v, ok := info.ObjectOf(x).(*types.Var); ok && !v.IsField() && v.Pkg() != nil && v.Parent() != v.Pkg().Scope() {
 			t := types.TypeString(v.Type(), func(*types.Package) string { return "" })
 			// distinct locals of one type stay distinct: numbered by first occurrence in the expression at hand
